@@ -282,6 +282,9 @@ pub fn c11_render_full(n: usize, mask: u64, i: usize, dup: bool, layout: u64, ns
                         uri(j)
                     )),
                     5 => s.push_str(&format!("  <xs:import schemaLocation=\"f{j}.xsd\" namespace=\"{}\"/>\n", uri(j))),
+                    // the sibling spelt as a relative path
+                    7 => s.push_str(&format!("  <xs:import namespace=\"{}\" schemaLocation=\"./f{j}.xsd\"/>\n", uri(j))),
+                    8 => s.push_str(&format!("  <xs:import namespace=\"{}\" schemaLocation=\".//./f{j}.xsd\"/>\n", uri(j))),
                     _ => s.push_str(&format!("  <xs:import namespace=\"{}\" schemaLocation=\"f{j}.xsd\"/>\n", uri(j))),
                 }
                 written += 1;
